@@ -1,4 +1,5 @@
 import Pi2.TautThm
+import Pi2.TautTie
 /-!
 # C09 — the tautology prover decides correctly
 
@@ -7,6 +8,11 @@ establishes the shape the next stage asserts; distribution terminates within `we
 resolution by saturation is sound and (when the saturation finishes without the empty clause)
 complete; hence the verdict of `prove_tautology` is right in all three cases.
 Thin restatements of `Pi2.TautThm`.
+
+`Pi2/Gen/PyTaut.lean` is regenerated on every run from `tautology.py` (`vlib/transtaut.py`: the normal-form classes and the
+DATA SLICE of every stage, statement by statement; proof objects are opaque).  `Pi2/TautTie.lean` ties the generated
+functions to the model; `prover_text_is_the_model` and `prover_text_decides` restate that here: C09 holds of the prover
+AS WRITTEN (data part; the proof objects are C10 and the replay in the check).
 -/
 namespace C09
 open Res
@@ -74,5 +80,50 @@ theorem prover_decides (fuel : Nat) (f : Form) :
     (proveTautology fuel f = some none → (∃ v, f.eval v = true) ∧ (∃ v, f.eval v = false)) :=
   _root_.prover_decides fuel f
 
-end C09
+/-- every class and every method of the data slice is covered by the translator -/
+theorem prover_translated : Gen.PyTaut.translated = true := TautTie.translated
 
+open Gen.PyTaut TautTie in
+/-- the prover as written is the model, stage by stage (`ofCF` embeds the model's normal forms in the generated class
+hierarchy; `depth` / `Form.size` bound the recursion depth; components 2 and 3 of the results are the opaque proofs):
+`to_conj_form`, `propag_neg`, `to_cnf` (at EVERY fuel), `to_clauses`, `resolvable`, `is_trivial_clause` are EQUAL to the
+model's functions, raises included; `start_resolution_algorithm` (the saturation loop over clause pairs with its hint
+bookkeeping and the reconstruction from the hint) and `prove_tautology` give the model's verdict in both directions:
+whatever they answer (at any fuel) the model answers at every sufficient fuel, and whatever the model answers they answer
+at every sufficient fuel — in particular none of their assertions fails.  (Clauses without the literal `0`.) -/
+theorem prover_text_is_the_model :
+    (∀ (f : Form) (n : Nat), f.size ≤ n →
+      to_conj_form n f = some (ofCF (CF.ofForm f), (), if (CF.ofForm f).isBot then none else some ())) ∧
+    (∀ (c : CF) (n : Nat), depth c ≤ n → propag_neg n (ofCF c) = (CF.propagNeg c).map fun r => (ofCF r, (), ())) ∧
+    (∀ (k : Nat) (c : CF), to_cnf k (ofCF c) = (CF.toCnfF k c).map fun r => (ofCF r, (), ())) ∧
+    (∀ (c : CF) (n : Nat), depth c ≤ n → to_clauses n (ofCF c) = (CF.toClauses c).map fun r => (r, (), ())) ∧
+    (∀ c1 c2 : List Int, Gen.PyTaut.resolvable c1 c2 = some (Res.resolvable c1 c2)) ∧
+    (∀ c : List Int, NoZero c → is_trivial_clause c = some (Res.trivial c)) ∧
+    (∀ (F : Nat) (cls : List (List Int)) (v : Option (Bool × Unit)), (∀ cl ∈ cls, NoZero cl) →
+      start_resolution_algorithm F cls = some v → ∃ n, ∀ m, Res.start (n + m) cls = some (v.map (·.1))) ∧
+    (∀ (F : Nat) (cls : List (List Int)) (x : Option Bool), (∀ cl ∈ cls, NoZero cl) →
+      Res.start F cls = some x → ∃ F', ∀ G, F' ≤ G → start_resolution_algorithm G cls = some (x.map fun b => (b, ()))) ∧
+    (∀ (F : Nat) (f : Form) (v : Option (Bool × Unit)), prove_tautology F f = some v →
+      ∃ n, ∀ m, proveTautology (n + m) f = some (v.map (·.1))) ∧
+    (∀ (F : Nat) (f : Form) (x : Option Bool), proveTautology F f = some x →
+      ∃ F', ∀ G, F' ≤ G → prove_tautology G f = some (x.map fun b => (b, ()))) :=
+  ⟨to_conj_form_eq, fun c n h => propag_neg_eq c n h, to_cnf_eq, to_clauses_eq, resolvable_eq, is_trivial_clause_eq,
+    fun F cls v hz h => start_sound F cls hz v h, fun F cls x hz h => start_complete F cls hz x h,
+    prove_tautology_sound, prove_tautology_complete⟩
+
+open Gen.PyTaut in
+/-- `prover_decides` for the prover AS WRITTEN: whatever fuel it is run with, the verdict `(True, _)` is given only for
+tautologies, `(False, _)` only for contradictions, `None` ("declined") only for contingent patterns -/
+theorem prover_text_decides (fuel : Nat) (f : Form) :
+    (∀ u, prove_tautology fuel f = some (some (true, u)) → ∀ v, f.eval v = true) ∧
+    (∀ u, prove_tautology fuel f = some (some (false, u)) → ∀ v, f.eval v = false) ∧
+    (prove_tautology fuel f = some none → (∃ v, f.eval v = true) ∧ (∃ v, f.eval v = false)) := by
+  refine ⟨fun u h => ?_, fun u h => ?_, fun h => ?_⟩
+  · obtain ⟨n, hn⟩ := TautTie.prove_tautology_sound fuel f _ h
+    exact (_root_.prover_decides (n + 0) f).1 (hn 0)
+  · obtain ⟨n, hn⟩ := TautTie.prove_tautology_sound fuel f _ h
+    exact (_root_.prover_decides (n + 0) f).2.1 (hn 0)
+  · obtain ⟨n, hn⟩ := TautTie.prove_tautology_sound fuel f _ h
+    exact (_root_.prover_decides (n + 0) f).2.2 (hn 0)
+
+end C09
